@@ -278,7 +278,9 @@ def run_property(spec, tier, sd, replay, t0):
             else:
                 violations.append((f.cls, f.msg, case))
         nonlocal first_diff
-        if r["diff"] is not None:
+        # a case whose only findings are recorded ones (e.g. a recorded crash) cannot be compared further
+        all_known = bool(r["findings"]) and all(known_match(pid, f.cls, known) for f in r["findings"])
+        if r["diff"] is not None and not all_known:
             stats["diffs"] += 1
             if first_diff is None:
                 first_diff = (case, r["diff"])
